@@ -124,13 +124,13 @@ theorem items_same3 (en : Endian) : ∀ (is : Items), decWfItems3 is = true → 
       | optional a b c d => simp [decWfItems3] at hw
       | chunk fs =>
         simp only [decWfItems3, Bool.and_eq_true] at hw
-        exact ⟨by simpa [decItemS] using item_same2 en (.chunk fs) hw.1 bs hb sj sr hr, hw.2⟩
+        exact ⟨by rw [decItemS_eq en _ hw.1]; exact item_same2 en (.chunk fs) hw.1 bs hb sj sr hr, hw.2⟩
       | payload m =>
         simp only [decWfItems3, Bool.and_eq_true] at hw
-        exact ⟨by simpa [decItemS] using item_same2 en (.payload m) hw.1 bs hb sj sr hr, hw.2⟩
+        exact ⟨by rw [decItemS_eq en _ hw.1]; exact item_same2 en (.payload m) hw.1 bs hb sj sr hr, hw.2⟩
       | array id el ew sh pad =>
         simp only [decWfItems3, Bool.and_eq_true] at hw
-        exact ⟨by simpa [decItemS] using item_same2 en (.array id el ew sh pad) hw.1 bs hb sj sr hr, hw.2⟩
+        exact ⟨by rw [decItemS_eq en _ hw.1]; exact item_same2 en (.array id el ew sh pad) hw.1 bs hb sj sr hr, hw.2⟩
     obtain ⟨hitem, hwr⟩ := step
     simp only [decItemsS, Pdlv.decItems]
     constructor
@@ -232,15 +232,15 @@ theorem items_refE3 (en : Endian) (all : Items) (p : Bytes) (v : Value) : ∀ (i
     | optional a1 a2 a3 a4 => simp [encWfItems3] at hw
     | chunk fs =>
       simp only [encWfItems3, Bool.and_eq_true] at hw
-      simp only [encItemsS, encItemS, single (.chunk fs) hw.1 ha, Outcome.bind, items_refE3 en all p v r b hw.2 hb]
+      simp only [encItemsS, encItemS_eq en all p v _ hw.1, single (.chunk fs) hw.1 ha, Outcome.bind, items_refE3 en all p v r b hw.2 hb]
       exact h3
     | payload m =>
       simp only [encWfItems3, Bool.and_eq_true] at hw
-      simp only [encItemsS, encItemS, single (.payload m) hw.1 ha, Outcome.bind, items_refE3 en all p v r b hw.2 hb]
+      simp only [encItemsS, encItemS_eq en all p v _ hw.1, single (.payload m) hw.1 ha, Outcome.bind, items_refE3 en all p v r b hw.2 hb]
       exact h3
     | array id el ew sh pad =>
       simp only [encWfItems3, Bool.and_eq_true] at hw
-      simp only [encItemsS, encItemS, single (.array id el ew sh pad) hw.1 ha, Outcome.bind, items_refE3 en all p v r b hw.2 hb]
+      simp only [encItemsS, encItemS_eq en all p v _ hw.1, single (.array id el ew sh pad) hw.1 ha, Outcome.bind, items_refE3 en all p v r b hw.2 hb]
       exact h3
 
 end Java
